@@ -86,7 +86,9 @@ func (mapVacuum *MapVacuum[K, V]) vacuum() {
 	deleteUntil := 0
 	now := mapVacuum.clock.Now()
 	mapVacuum.mapMutex.Lock()
-	for _, entry := range mapVacuum.entries {
+	// iterate over the snapshot taken under entriesMutex above: VacuumKey appends to
+	// mapVacuum.entries concurrently
+	for _, entry := range mapVacuumEntries {
 		if entry.vacuumAt.Before(now) {
 			delete(mapVacuum.mapToVacuum, entry.keyToVacuum)
 			deleteUntil++
